@@ -114,24 +114,28 @@ func doCliOut(c *core.Ctx, q outReq) {
 	}
 	ofTxt, _ := os.ReadFile(of)
 	rawTxt, _ := os.ReadFile(rawf)
-	var logLines []string
+	// the log: the -l file, or the standard error (where TBE's progress messages, ended by \r, arrive as well)
+	var logLines, midLines []string
+	data := r.Stderr
 	if q.logSel == "file" {
-		data, _ := os.ReadFile(lf)
-		var ls []string
-		for _, l := range strings.Split(string(data), "\n") {
-			if l != "" {
-				ls = append(ls, l)
-			}
+		b, _ := os.ReadFile(lf)
+		data = string(b)
+	}
+	var ls []string
+	for _, l := range strings.Split(strings.ReplaceAll(data, "\r", "\n"), "\n") {
+		if l != "" {
+			ls = append(ls, l)
 		}
-		if len(ls) > 6 {
-			logLines = append(append(logLines, ls[:6]...), ls[len(ls)-1])
-		} else {
-			logLines = ls
-		}
+	}
+	if len(ls) > 6 {
+		logLines = append(append(logLines, ls[:6]...), ls[len(ls)-1])
+		midLines = ls[6 : len(ls)-1]
+	} else {
+		logLines = ls
 	}
 	c.Emit("C10.out", q.which, q.outSel, q.rawSel, q.logSel, fmt.Sprint(q.threads), pref.Dump(), core.Dumps(pboots),
 		core.Escape(rf), core.Escape(bf), core.Escape(outArg),
-		exit, classifyLines(r.Stdout), classifyLines(string(ofTxt)), classifyLines(string(rawTxt)), core.StrList(logLines))
+		exit, classifyLines(r.Stdout), classifyLines(string(ofTxt)), classifyLines(string(rawTxt)), core.StrList(logLines), core.StrList(midLines))
 }
 
 func cliOutCase(c *core.Ctx) {
